@@ -152,6 +152,10 @@ func registerNetStubs() {
 	globalModels["net.v4InV6Prefix"] = func(i *interpreter, g *ssa.Global) value {
 		return bytesToValue([]byte{0, 0, 0, 0, 0, 0, 0, 0, 0, 0, 0xff, 0xff})
 	}
+	// name tables of generated protobuf enums are only used for log text
+	globalModels["github.com/p4lang/p4runtime/go/p4/v1.Update_Type_name"] = func(i *interpreter, g *ssa.Global) value {
+		return &omap{idx: map[string]*ment{}}
+	}
 	globalModels["net.IPv4zero"] = func(i *interpreter, g *ssa.Global) value { return bytesToValue(net.IPv4zero) }
 	globalModels["net.IPv4bcast"] = func(i *interpreter, g *ssa.Global) value { return bytesToValue(net.IPv4bcast) }
 	globalModels["net.IPv6zero"] = func(i *interpreter, g *ssa.Global) value { return bytesToValue(net.IPv6zero) }
